@@ -66,6 +66,9 @@ def decode_cfg(data):
         opts["quote_char"] = qc
     first = {"container": dec.pick([None, None, None, "div", "td", "svg", "select", "p"]), "scripting": bool(dec.below(2)), "walker": dec.pick(["etree", "etree", "dom"])}
     second = {"container": dec.pick(REPARSE_CONTEXTS), "scripting": bool(dec.below(2))}
+    # output encoding (None = str) and the meta-charset filter that is on by default with it; popped before the options reach HTMLSerializer
+    opts["_encoding"] = dec.pick([None, None, "utf-8", "ascii", "koi8-r"])
+    opts["_inject"] = bool(dec.below(3))
     return opts, first, second
 
 
@@ -111,6 +114,8 @@ def check_case(case):
     from html5lib.filters import sanitizer as S
     from html5lib.serializer import HTMLSerializer
     text, opts, first, second = case["text"], dict(case["opts"]), case["first"], case["second"]
+    enc = opts.pop("_encoding", None)
+    inject = bool(opts.pop("_inject", False) and enc)
     lists = c09.default_lists()
     try:
         tree, p = h5.parse(text, builder=first["walker"], container=first["container"], scripting=first["scripting"], full_tree=True)
@@ -140,8 +145,14 @@ def check_case(case):
                 letthrough.add((t["namespace"] if t["namespace"] is not None else HTML_NS, t["name"]))
                 let_attrs.update(t["data"].keys())
         try:
-            ser = HTMLSerializer(sanitize=True, inject_meta_charset=False, **opts)
-            out = ser.render(h5.walk(tree, first["walker"]))
+            ser = HTMLSerializer(sanitize=True, inject_meta_charset=inject, **opts)
+            out = ser.render(h5.walk(tree, first["walker"]), enc)
+            if enc:
+                out = out.decode(enc)
+        except UnicodeEncodeError as e:
+            if enc:
+                return Verdict("excluded", finding="a name or comment the output encoding cannot express: UnicodeEncodeError (loud, nothing is emitted)")
+            return Verdict("fail", "serializer(sanitize=True) raised %s: %s on %s" % (type(e).__name__, short(str(e), 100), short(text, 200)), "exception:" + type(e).__name__, nontrivial=True)
         except Exception as e:
             return Verdict("fail", "serializer(sanitize=True) raised %s: %s on %s" % (type(e).__name__, short(str(e), 100), short(text, 200)), "exception:" + type(e).__name__, nontrivial=True)
     try:
@@ -154,7 +165,8 @@ def check_case(case):
     names_re = [r[3] for r in fl if r[1] == "elem" and not (doc and r[3] in ("html", "head", "body") and r[0] <= 2)]
     ctx = any(x in text.lower() for x in ("<style", "<script", "<title", "<textarea", "<svg", "<math", "<table", "<select", "<noscript", "<xmp", "<iframe", "<!--", "cdata"))
     nontrivial = had_bad and (ctx or names_let != names_re)
-    sig = sig64(tuple((r[0], r[1], r[3] if r[1] == "elem" else None) for r in fl), sorted(opts.items()), second["container"], second["scripting"])
+    sig = sig64(tuple((r[0], r[1], r[3] if r[1] == "elem" else None) for r in fl), sorted(opts.items()), second["container"], second["scripting"], enc, inject)
+    opts = dict(opts, encoding=enc, inject_meta_charset=inject)
     classes = ["reparse:" + str(second["container"]), "scripting2:%s" % second["scripting"]]
     res = tree_violation(fl, lists, letthrough, doc)
     if res is None:
@@ -181,7 +193,7 @@ def shards(tier):
 
 def run_shard(desc, seed, tier):
     acc = Acc()
-    strat = st.tuples(sized_binary(6, 100), st.binary(min_size=16, max_size=16))
+    strat = st.tuples(sized_binary(6, 100), st.binary(min_size=18, max_size=18))
 
     def fn(x):
         data, cfg = x
